@@ -94,9 +94,7 @@ PARTIAL = [
     'row/column, then a left-to-right horizontal sum) with no algebraic law; simdMatmul_eq_scalar identifies it with the sum of the K '
     'products only in exact arithmetic (commutative monoid, fma x y z = x*y + z): the single rounding of a hardware fmadd and the '
     're-association in floating point are outside the model (checked within a tolerance by the differential run)',
-    'matmul with a column-major lhs: the layout test of operator() is dead code in the unchanged tree (open known finding '
-    'matmul.column-major-lhs, simdEvalMatmul_colMajorLhs_counterexample, fixes/C12-matmul-lhs-layout-fallback.diff); the statement for the '
-    'repaired operator() is simdEvalMatmul_repaired_eq_scalar; set MATMUL_LHS_FALLBACK_REPAIRED once the fix is applied',
+    'matmul with a column-major lhs: operator() falls back to the scalar evaluator since fix commit 8eebbc3 (simdEvalMatmul_repaired_eq_scalar, instance simdEvalMatmul_colMajorLhs_regression; before it the layout test was dead code)',
     'NaN / -0.0 through the min/max-built activations relu6, hardtanh, softshrink are outside the lane-wise hypothesis: open known finding '
     'elementwise.special-values',
 ]
